@@ -165,6 +165,8 @@ def drive(ctx, strategy, body, n, name='main', chunk=None, budget_s=None, shrink
         def test(case):
             # own cap on the shrink phase: once the budget is spent, every candidate other than the
             # current best failing case passes trivially, so Hypothesis stops and replays that best case
+            if 'error' in last:
+                return          # a harness error was recorded: finish this chunk without work
             if 'fail_t' in last and time.time() - last['fail_t'] > shrink_budget_s:
                 if canon(case) != last['fail_canon']:
                     return
@@ -177,6 +179,12 @@ def drive(ctx, strategy, body, n, name='main', chunk=None, budget_s=None, shrink
                 last.setdefault('fail_t', time.time())
                 last['fail_canon'] = canon(case)
                 raise
+            except Exception as e:      # harness error: never shrunk, never a verdict
+                if 'fail_t' in last:
+                    return              # while shrinking a violation: candidate simply does not count
+                last['error'] = ''.join(traceback.format_exception(type(e), e, e.__traceback__))[-3000:]
+                last['error_case'] = case
+                return
 
         try:
             test()
@@ -186,6 +194,10 @@ def drive(ctx, strategy, body, n, name='main', chunk=None, budget_s=None, shrink
             return done
         except hypothesis.errors.Unsatisfiable:
             ctx.note('campaign %s: strategy unsatisfiable in chunk %d' % (name, k))
+        if 'error' in last:
+            ctx.current_case = last.get('error_case')
+            raise HarnessError('exception in property body (campaign %s): %s\ncase: %s'
+                               % (name, last['error'], canon(last.get('error_case'))[:1500]))
         done += m
         k += 1
     return done
@@ -278,6 +290,11 @@ def run_check(prop, tier, seed):
     t0 = time.time()
     sandbox.cleanup_stale_homes()
     sandbox.ensure_pycode()
+    d = os.path.join(REPLAYS, prop)
+    if os.path.isdir(d):      # violation files of earlier runs (not the committed r-*.json replays)
+        for f in os.listdir(d):
+            if f.startswith('v-'):
+                os.remove(os.path.join(d, f))
     mod = importlib.import_module('vf.props.' + prop.lower())
     outdir = os.path.join(sandbox.WORK, 'out-%s-%d' % (prop, os.getpid()))
     os.makedirs(outdir, exist_ok=True)
